@@ -38,7 +38,7 @@ ID = "C20"
 LEVEL = "exploration"
 RULE = ("cases are histories [init lines, tag filter, op list] over a pool of databases, compared "
         "with a reference relation after every step; enumerated: every op sequence of length 1..3 "
-        "(quick) / 1..4 (thorough) over a 15-operation alphabet (each derivation kind + 3 inserts) x "
+        "(quick) / 1..4 (thorough) over a 16-operation alphabet (each derivation kind + 4 inserts) x "
         "target index 0..position on one fixed 3-package collection; generated: 0..8 initial packages "
         "in single- and multi-package lines (distinct names of 1..6 characters; one-character names in "
         "about half of the positions and exclusively in a quarter of the histories), 14 facet::tag "
@@ -476,7 +476,8 @@ def check(case):
 # bounded-exhaustive enumeration
 
 
-ENUM_INIT = [[["p"], ["f::a", "g::b"], 0], [["q"], ["f::a"], 0], [["rr"], [], 0]]
+ENUM_INIT = [[["p"], ["f::a", "g::b"], 0], [["q"], ["f::a"], 0], [["rr"], [], 0],
+             [["s", "t"], ["g::b", "h::c"], 0]]     # one line naming two packages
 ENUM_OPS = [
     ["reverse"], ["reverse_copy"], ["copy"], ["facet"],
     ["choose", ["p", "f::a", "zz"]], ["choose_copy", ["p", "f::a"]],
@@ -485,6 +486,7 @@ ENUM_OPS = [
     ["filter_packages_tags_copy", ["q", "g::b"], ["g::b", "p"]],
     ["filter_tags", ["f::a", "p"]], ["filter_tags_copy", ["f::a", "p"]],
     ["insert", "n", ["f::a"]], ["insert", "nn", ["g::b", "h::c"]], ["insert", "f::n", ["p"]],
+    ["insert", "g::n", ["s"]],      # in a reversed view: a new item under one of the two packages of a line
 ]
 
 
